@@ -551,9 +551,9 @@ func opRunFiles(c *wire.Case, res *wire.Result) {
 		}
 		res.Counters = map[string]int{"fds_before": countFds()}
 	}
-	r, ms := monitoredRun(c, func() engine.Matches { return v.RunFiles(c.Files, mode, false) })
+	r, ms := monitoredRun(c, func() engine.Matches { return v.RunFiles(c.Files, mode, c.ProcessFilenames) })
 	for k := 1; k < c.Rounds && r.Panic == nil && r.Budget == ""; k++ {
-		r2, _ := monitoredRun(c, func() engine.Matches { return v.RunFiles(c.Files, mode, false) })
+		r2, _ := monitoredRun(c, func() engine.Matches { return v.RunFiles(c.Files, mode, c.ProcessFilenames) })
 		if r2.Panic != nil || r2.Budget != "" {
 			r = r2
 		}
